@@ -1073,7 +1073,7 @@ pub fn diff_class(want: &QResult, got: &QResult) -> String {
             // identical up to the letters chosen for type variables?
             let norm = |s: &str| -> String {
                 let mut out = String::new();
-                let cs: Vec<char> = s.chars().collect();
+                let cs: Vec<char> = s.replace("\\n", "\n").chars().collect();
                 for (i, c) in cs.iter().enumerate() {
                     let prev = if i > 0 { cs[i - 1] } else { ' ' };
                     let next = cs.get(i + 1).copied().unwrap_or(' ');
